@@ -615,13 +615,20 @@ def tie(ctx):
         def sel(allm):
             if schema in full:
                 return allm
-            bykind = {}
+            # quick tier, other versions: everything at table / view level, every "new name last" mutant (the only
+            # detector of a missing validate_no_more), one column-list change per index (the only detector of an
+            # index whose columns are never inspected), and one mutant of every other kind family PER TABLE
+            always = ("identity", "table-", "view-", "index-col-replace", "autoindex-col-replace")
+            out, groups = [], {}
             for m in allm:
-                bykind.setdefault(m["kind"], []).append(m)
-            out = []
-            for k in sorted(bykind):
-                ms = bykind[k]
-                out += rng.sample(ms, max(1, len(ms) // 12))
+                k = m["kind"]
+                if k.startswith(always) or k.endswith("-add-last") or k.endswith("-add-only"):
+                    out.append(m)
+                else:
+                    fam = re.sub(r"-(first|between|last|add|drop|change|remove|case)$", "", k)
+                    groups.setdefault((fam, m["label"], m["what"].split(".")[0]), []).append(m)
+            for g in sorted(groups):
+                out.append(rng.choice(groups[g]))
             return out
         return sel
     t0 = time.time()
